@@ -132,6 +132,76 @@ func (v *Val) ToGo() interface{} {
 	panic("model: ToGo of " + v.K)
 }
 
+// ToGoTyped is ToGo with homogeneous lists handed over as slices of a static Go type ([]string, []int, []float64,
+// []bool, []map[string]interface{}) the way a caller that builds variables in Go code, not from JSON, supplies them.
+func (v *Val) ToGoTyped() interface{} {
+	if v == nil {
+		return nil
+	}
+	switch v.K {
+	case "list":
+		kind := ""
+		for i, e := range v.L {
+			k := "null"
+			if e != nil {
+				k = e.K
+			}
+			if k == "enum" {
+				k = "str"
+			}
+			if i > 0 && k != kind {
+				kind = "mixed"
+				break
+			}
+			kind = k
+		}
+		switch kind {
+		case "str":
+			out := make([]string, len(v.L))
+			for i, e := range v.L {
+				out[i] = e.S
+			}
+			return out
+		case "int":
+			out := make([]int, len(v.L))
+			for i, e := range v.L {
+				out[i] = int(e.I)
+			}
+			return out
+		case "float":
+			out := make([]float64, len(v.L))
+			for i, e := range v.L {
+				out[i] = e.F
+			}
+			return out
+		case "bool":
+			out := make([]bool, len(v.L))
+			for i, e := range v.L {
+				out[i] = e.B
+			}
+			return out
+		case "obj":
+			out := make([]map[string]interface{}, len(v.L))
+			for i, e := range v.L {
+				out[i] = e.ToGoTyped().(map[string]interface{})
+			}
+			return out
+		}
+		out := make([]interface{}, len(v.L))
+		for i, e := range v.L {
+			out[i] = e.ToGoTyped()
+		}
+		return out
+	case "obj":
+		out := map[string]interface{}{}
+		for _, f := range v.O {
+			out[f.N] = f.V.ToGoTyped()
+		}
+		return out
+	}
+	return v.ToGo()
+}
+
 // HasVar reports whether a literal contains a variable reference.
 func (v *Val) HasVar() bool {
 	if v == nil {
